@@ -321,12 +321,12 @@ def run_job(job, tier, inc_extra, keep_dir=None):
                 res.status, res.reason, res.log_tail = 'undecided', 'goto-instrument failed', out[-3000:]
                 return res
             gi_out = out
-        cb = ['cbmc', b] + ([] if job.text_ui else ['--json-ui']) + job.flags
+        cb = ['cbmc', b] + ([] if job.text_ui else ['--json-ui']) + list(job.flags)
         if job.unwind is not None:
             cb += ['--unwind', str(job.unwind), '--unwinding-assertions']
         for u in job.unwindset:
             cb += ['--unwindset', u]
-        if job.unwindset and job.unwind is None:
+        if job.unwindset and job.unwind is None and '--no-unwinding-assertions' not in job.flags:
             cb += ['--unwinding-assertions']
         if job.object_bits:
             cb += ['--object-bits', str(job.object_bits)]
@@ -449,7 +449,7 @@ def concretize(job, tier, inc_extra):
         conc['MAXN'] = min(int(defs['MAXN']), 8)
     defs.update(conc)
     if unwind is None:
-        unwind = int(defs.get('MAXN', 8)) + 2
+        unwind = max(int(defs.get('MAXN', 8)) + 2, 13)
     try:
         scratch, _ = make_scratch(job.tus, lambda w: None, set(job.functions))
     except Undecided:
